@@ -24,6 +24,11 @@ Definition obs_enc (s : shard) : list N :=
   map (fun a => b2n (sh_locked s (fst a) (snd a))) g_addrs ++
   map (fun a => b2n (blob_has (sh_blob s) (fst a) (snd a))) g_addrs.
 
+(* 61-bit multiplicative digest; masking instead of a modulo (N.modulo is slow under vm_compute) *)
+Definition ghash_mask : N := 2305843009213693951.  (* 2^61 - 1 *)
+Definition ghash (l : list N) : N :=
+  fold_left (fun acc x => N.land (acc * 1000003 + x + 1) ghash_mask) l 7.
+
 Record gstep := mkGStep { gs_op : sop; gs_res : list Z; gs_obs : N }.
 Record ghist := mkGHist { gh_lim : nat; gh_drain : nat; gh_steps : list gstep }.
 
@@ -36,7 +41,7 @@ Fixpoint model_ghist (lim : nat) (h k : nat) (s : shard) (l : list gstep) : list
   | st :: r =>
       let '(s', res) := sstep lim s (gs_op st) in
       (if list_eqb Z.eqb res (gs_res st) then [] else [code h k sec_gres]) ++
-      (if hash_list (obs_enc s') =? gs_obs st then [] else [code h k sec_gdigest]) ++
+      (if ghash (obs_enc s') =? gs_obs st then [] else [code h k sec_gdigest]) ++
       model_ghist lim h (S k) s' r
   end.
 
